@@ -12,7 +12,10 @@ hand-transcribed as a total matcher on a list of code points.
 * The string-literal regex is the repaired one,
   `"[^"\\\n\v\f]*(?:\\(?:["nt\\]|[0-9A-Fa-f]{2})[^"\\\n\v\f]*)*"`, whose alternatives are
   distinguished by their first character; `strBody` is the corresponding deterministic scanner.
-* Every matcher returns, next to its result, a *tick count*: one tick per code point it reads
+* A string literal with a backslash is STRING_LIT iff its unescaped bytes (raw characters UTF-8
+  encoded, escapes decoded) are valid UTF-8, else BYTES_LIT (`litBytes`, `utf8Valid`: the strict
+  decoder of CPython — no overlong forms, no encoded surrogates, at most U+10FFFF).
+* Every matcher returns, next to its result, a *tick count*: one tick per code point (or byte) it reads
   (including the read that ends a run and the end-of-input test).  `Out.steps` is the sum over the
   whole run; `XdslProofs/C07.lean` bounds it linearly in the input length.
 * `lex` iterates `MLIRLexer.lex` until the EOF token or the first `ParseError` (the parser pulls
@@ -22,7 +25,7 @@ hand-transcribed as a total matcher on a list of code points.
 
 Excluded: inputs containing lone surrogates (not text that can be read from a file; the real lexer
 raises `UnicodeEncodeError` from `str.encode` when such a string literal contains a backslash).
-The model treats them like any non-ASCII code point.
+The model gives them a three-byte encoding that is not valid UTF-8.
 -/
 namespace Xdsl.Lexer
 
@@ -178,30 +181,82 @@ def hasBackslash : List CP → Bool × Nat
   | [] => (false, 1)
   | c :: r => if c.val == 92 then (true, 1) else let q := hasBackslash r; (q.1, q.2 + 1)
 
-/-- `lit.bytes_contents.isascii()` on a literal whose escapes are already known to be valid -/
-def litAscii : List CP → Bool × Nat
-  | [] => (true, 1)
+/-- UTF-8 encoding of a code point (`str.encode()`); lone surrogates are outside the model's
+quantifier (CPython raises `UnicodeEncodeError`), they get the generic three-byte form here, which
+`utf8Valid` rejects -/
+def utf8Enc (v : Nat) : List Nat :=
+  if v < 128 then [v]
+  else if v < 2048 then [192 + v / 64, 128 + v % 64]
+  else if v < 65536 then [224 + v / 4096, 128 + (v / 64) % 64, 128 + v % 64]
+  else [240 + (v / 262144) % 8, 128 + (v / 4096) % 64, 128 + (v / 64) % 64, 128 + v % 64]
+
+/-- the byte of `\"`, `\n`, `\t`, `\\` -/
+def simpleEscByte (n : Nat) : Nat :=
+  if n == 110 then 10 else if n == 116 then 9 else n
+
+/-- `lit.bytes_contents` on a literal whose escapes are already known to be valid: raw characters
+UTF-8 encoded, `\n \t \\ \"` and `\XX` decoded (the closing quote, last element of the body, travels
+along as the ASCII byte it is) -/
+def litBytes : List CP → List Nat × Nat
+  | [] => ([], 1)
   | c :: r =>
     if c.val == 92 then
       match r with
-      | [] => (true, 2)
+      | [] => ([], 2)
       | d :: r' =>
-        if isSimpleEscN d.val then let q := litAscii r'; (q.1, q.2 + 2)
+        if isSimpleEscN d.val then let q := litBytes r'; (simpleEscByte d.val :: q.1, q.2 + 2)
         else
           match r' with
-          | [] => (true, 3)
+          | [] => ([], 3)
           | e :: r'' =>
-            let q := litAscii r''
-            (decide (hexValN d.val * 16 + hexValN e.val < 128) && q.1, q.2 + 3)
-    else let q := litAscii r; (decide (c.val < 128) && q.1, q.2 + 1)
+            let q := litBytes r''
+            ((hexValN d.val * 16 + hexValN e.val) :: q.1, q.2 + 3)
+    else let q := litBytes r; (utf8Enc c.val ++ q.1, q.2 + 1)
+
+/-- continuation byte `80..BF` -/
+def isCont (b : Nat) : Bool := decide (128 ≤ b) && decide (b ≤ 191)
+/-- second byte of a three-byte sequence with lead `b` (no overlong forms, no surrogates) -/
+def second3 (b c : Nat) : Bool :=
+  if b == 224 then decide (160 ≤ c) && decide (c ≤ 191)
+  else if b == 237 then decide (128 ≤ c) && decide (c ≤ 159)
+  else isCont c
+/-- second byte of a four-byte sequence with lead `b` (no overlong forms, at most U+10FFFF) -/
+def second4 (b c : Nat) : Bool :=
+  if b == 240 then decide (144 ≤ c) && decide (c ≤ 191)
+  else if b == 244 then decide (128 ≤ c) && decide (c ≤ 143)
+  else isCont c
+
+/-- `bytes.decode()` succeeds (strict UTF-8, as CPython's decoder) -/
+def utf8Valid : List Nat → Bool × Nat
+  | [] => (true, 1)
+  | b :: r =>
+    if b < 128 then let q := utf8Valid r; (q.1, q.2 + 1)
+    else if decide (194 ≤ b) && decide (b ≤ 223) then
+      match r with
+      | c1 :: r1 => if isCont c1 then let q := utf8Valid r1; (q.1, q.2 + 2) else (false, 2)
+      | [] => (false, 2)
+    else if decide (224 ≤ b) && decide (b ≤ 239) then
+      match r with
+      | c1 :: c2 :: r2 =>
+        if second3 b c1 && isCont c2 then let q := utf8Valid r2; (q.1, q.2 + 3) else (false, 3)
+      | _ => (false, 3)
+    else if decide (240 ≤ b) && decide (b ≤ 244) then
+      match r with
+      | c1 :: c2 :: c3 :: r3 =>
+        if second4 b c1 && isCont c2 && isCont c3 then let q := utf8Valid r3; (q.1, q.2 + 4)
+        else (false, 4)
+      | _ => (false, 4)
+    else (false, 1)
 
 /-- STRING_LIT / BYTES_LIT decision of `_lex_string_literal` on the literal text after the opening
-quote (`body` = contents and closing quote) -/
+quote (`body` = contents and closing quote): without a backslash STRING_LIT; otherwise BYTES_LIT iff
+`lit.bytes_contents.decode()` raises `UnicodeDecodeError` -/
 def litKind (body : List CP) : Kind × Nat :=
   let b := hasBackslash body
   if b.1 then
-    let a := litAscii body
-    (if a.1 then .stringLit else .bytesLit, b.2 + a.2)
+    let bs := litBytes body
+    let a := utf8Valid bs.1
+    (if a.1 then .stringLit else .bytesLit, b.2 + bs.2 + a.2)
   else (.stringLit, b.2)
 
 /-- `_lex_string_literal`, the opening quote already read -/
